@@ -534,6 +534,26 @@ def inputs():
         i['reject'] = ['<type name="%s"' % never]
         out.append(i)
 
+    # the same #define in two headers (first definition wins, documented in transformer.py)
+    out.append(_inp('dup-const', [
+        Const('FOO_DUP', 7),
+        Const('FOO_OTHER', 1),
+        Const('FOO_DUP', 7),
+        Const('FOO_NAME', 'foo'),
+        Const('FOO_NAME', 'foo'),
+        Func('foo_dup_user', 'int', [('int', 'x')]),
+    ], files=[A, B, B, B, A, A], blocks=[B_('FOO_DUP', desc='Defined twice.')]))
+    # the same function / typedef declared in two headers: the scanner refuses ("Namespace conflict");
+    # it must refuse in every order
+    i = _inp('dup-func', [Func('foo_twice', 'void', [('int', 'x')]), Func('foo_once', 'void'),
+                          Func('foo_twice', 'void', [('int', 'x')])], files=[A, A, B])
+    i['expect_error'] = True
+    out.append(i)
+    i = _inp('dup-typedef', [Typedef('FooInt', 'int'), Typedef('FooInt', 'int'), Func('foo_int', 'FooInt')],
+             files=[A, B, A])
+    i['expect_error'] = True
+    out.append(i)
+
     # typedef to a pointer to a struct tag, before / after the definition of the struct
     out.append(_inp('pointer-typedef-order', [
         Typedef('FooPtr', 'struct _FooP*'),
@@ -557,7 +577,12 @@ def tag_typedef_groups(decls):
             if sym.type == CSYMBOL_TYPE_TYPEDEF and t is not None and t.type in (CTYPE_STRUCT, CTYPE_UNION) \
                     and t.name and not t.child_list:
                 groups.setdefault((t.type, t.name), []).append(i)
-    return [g for k, g in sorted(groups.items()) if len(g) > 1]
+    # the same identifier defined twice (e.g. one #define in two headers): the first definition wins
+    # (documented in Transformer._append_new_node), so which one arrives first is input as well
+    for i, d in enumerate(decls):
+        for sym in d.symbols():
+            groups.setdefault(('dup', sym.type, sym.ident), []).append(i)
+    return [g for k, g in sorted(groups.items(), key=repr) if len(g) > 1]
 
 
 def by_name(name):
